@@ -64,6 +64,16 @@ pub fn apply_step(net: &mut Net, st: &J) -> bool {
             net.run("bogus", &p, None, &known, &[id]);
             true
         }
+        "obs" => {
+            let set: Vec<(String, usize)> = st["set"]
+                .as_array()
+                .map(|a| a.iter().map(|x| (x[0].as_str().unwrap_or("").to_string(), x[1].as_u64().unwrap_or(0) as usize)).collect())
+                .unwrap_or_default();
+            if set.iter().any(|(f, v)| *v == 0 || net.sent.get(f).map(|s| s.len()).unwrap_or(0) < *v) || set.len() > 4 {
+                return false;
+            }
+            observer_on_set(net, set, false, false).is_some()
+        }
         _ => false,
     }
 }
@@ -175,10 +185,14 @@ pub fn observer_probe(net: &mut Net, rng: &mut StdRng, finals_only: bool) -> Opt
         return None;
     }
     all.shuffle(rng);
-    let quiescent = net.quiescent();
     let complete = finals_only && all.len() <= 4;
     all.truncate(4);
     all.sort();
+    observer_on_set(net, all, finals_only, complete)
+}
+
+pub fn observer_on_set(net: &mut Net, all: Vec<(String, usize)>, finals_only: bool, complete: bool) -> Option<J> {
+    let quiescent = net.quiescent();
     let perms = permutations(all.len());
     let mut groups: BTreeMap<String, (J, Vec<J>, Vec<i64>)> = BTreeMap::new();
     let mut evals = 0;
@@ -190,7 +204,7 @@ pub fn observer_probe(net: &mut Net, rng: &mut StdRng, finals_only: bool) -> Opt
             }
             let (p, codes) = net.observer_fold(&msgs, grouped);
             evals += 1;
-            let order = json!({"ord": msgs.iter().map(|(f, v)| json!([f, v])).collect::<Vec<_>>(), "g": grouped});
+            let order = json!({"ord": msgs.iter().map(|(f, v)| json!([f, v])).collect::<Vec<_>>(), "g": grouped, "codes": codes});
             let maxcode = codes.iter().copied().max().unwrap_or(0);
             let e = groups.entry(p.tdigest.clone()).or_insert((p.data.clone(), vec![], vec![]));
             if e.1.len() < 3 {
@@ -210,7 +224,7 @@ pub fn observer_probe(net: &mut Net, rng: &mut StdRng, finals_only: bool) -> Opt
         })
         .collect();
     let rec = json!({"k":"obs","hid":net.hid,"step":net.step,"set":all.iter().map(|(f,v)| json!([f,v])).collect::<Vec<_>>(),
-        "finals": finals_only, "complete": complete, "quiescent": quiescent && complete && net.joinfree, "evals": evals, "results": res});
+        "finals": finals_only, "complete": complete, "quiescent": quiescent && complete && net.joinfree && net.clean, "evals": evals, "results": res});
     net.out.push(rec.clone());
     Some(rec)
 }
